@@ -1086,6 +1086,10 @@ func (d *GenDecl) End() token.Pos {
 // End returns position of first character immediately after the node.
 func (d *FuncDecl) End() token.Pos {
 	if d.Body != nil {
+		if d.Shadow && d.Body.Rbrace.IsValid() {
+			// the body of a shadow entry has no braces: Rbrace is the end of its last statement
+			return d.Body.Rbrace
+		}
 		return d.Body.End()
 	}
 	return d.Type.End()
